@@ -1285,6 +1285,11 @@ def m_into_vec(ctx, args, callee):
 def m_vec_extend(ctx, args, callee):
     s = as_seq(ctx, args[0])
     src = args[1]
+    piece = ctx.deref(src) if isinstance(src, Ref) else src
+    if isinstance(piece, Str):
+        # bytes of a text appended to a Vec<u8>: the Vec is a byte rope whose elements are whole texts
+        s.items.append(Cell(piece))
+        return UNIT
     it = to_iter(ctx, src)
     while True:
         x = it.next(ctx)
@@ -1292,6 +1297,21 @@ def m_vec_extend(ctx, args, callee):
             break
         s.items.append(Cell(deep_clone(ctx, ctx.deref(x)) if 'extend_from_slice' in callee else x))
     return UNIT
+
+
+@model(r'^(std::string::)?String::from_utf8_lossy$')
+def m_from_utf8_lossy(ctx, args, callee):
+    """String::from_utf8_lossy over a byte rope (a Vec<u8> whose elements are whole texts): the texts joined"""
+    v = ctx.deref(args[0])
+    if isinstance(v, Str):
+        return EnumV(0, {0: [v]}, 'Cow')
+    if isinstance(v, Seq) and all(isinstance(c.v, Str) for c in v.items):
+        from .models_fmt import concat_any
+        acc = Str('')
+        for c in v.items:
+            acc = concat_any(ctx, acc, c.v)
+        return EnumV(1, {1: [acc]}, 'Cow')
+    raise Unmodelled('from_utf8_lossy of raw bytes')
 
 
 @model(r'^(std|core|alloc)::slice::<impl \[.*\]>::reverse$')
